@@ -6,7 +6,7 @@ package main
 //
 // Case lines (model-compared):
 //	schema <id> <tokens...>                       | ok
-//	enc <id> 0 <f|s> <value...>                        | ok <deterministic Marshal bytes> <Size>  or  utf8
+//	enc <id> 0 <f|s> <value...>                        | ok <deterministic Marshal bytes> <Size> v1  or  utf8   (v1: the model's msg_valid holds)
 //	dec <id> 0 <f|s> <limit> <bytes>              | ok <canonical dump>  or  e1/e2/e3
 // P lines: C03 (Unmarshal(Marshal(m)) not Equal m, all flavours/options), C04 (Size != len(Marshal),
 // MarshalAppend does not extend the prefix).
@@ -288,7 +288,7 @@ func msgOneValue(c *Ctx, fl msgFlavour, id string, depth int) {
 		return
 	}
 	c.Stat("enc_" + fl.name + "_ok")
-	c.Case("msg", "enc", append([]string{id, "0", mode}, val...), []string{"ok", HexB(det), HexN(uint64(msgDetOpts.Size(m.Interface())))})
+	c.Case("msg", "enc", append([]string{id, "0", mode}, val...), []string{"ok", HexB(det), HexN(uint64(msgDetOpts.Size(m.Interface()))), "v1"})
 	msgSizeChecks(c, fl, m)
 	msgRoundTrip(c, fl, m)
 
